@@ -1,3 +1,4 @@
 pub mod store;
 pub mod session;
 pub mod sync;
+pub mod das;
